@@ -26,12 +26,12 @@ const PRIMS: [(&str, usize, usize); 15] = [
 
 #[derive(Clone, Debug)]
 pub struct Case {
-    structs: Vec<Vec<F>>, // struct k may use structs < k; the last one is the struct under test
-    out: bool,            // #[diplomat::out] structs (may hold Box<Opaque>) or input structs (may hold owned slices)
+    pub structs: Vec<Vec<F>>, // struct k may use structs < k; the last one is the struct under test
+    pub out: bool,        // #[diplomat::out] structs (may hold Box<Opaque>) or input structs (may hold owned slices)
 }
 
 impl Case {
-    fn lty(&self, f: &F) -> String {
+    pub fn lty(&self, f: &F) -> String {
         match f {
             F::Prim(_, s, a) => format!("(s {s} {a})"),
             F::Enum | F::BoxOpaque => "(s 4 4)".into(),
@@ -72,7 +72,7 @@ impl Case {
         s
     }
     /// the same struct for rustc on the host, pointer-sized things replaced by 32-bit stand-ins
-    fn host_ty(&self, f: &F) -> String {
+    pub fn host_ty(&self, f: &F) -> String {
         match f {
             F::Prim(n, _, _) => match *n {
                 "DiplomatChar" => "u32".into(),
@@ -186,6 +186,13 @@ pub fn main(args: &[String]) {
     // systematic small shapes first: a two-scalar struct nested among 0..3 further scalars (the padded-direct
     // boundary of the legacy ABI), an option next to it, in every position
     let mut cases: Vec<Case> = vec![];
+    // structs that are a single scalar (the wasm C ABI treats them as that scalar)
+    cases.push(Case { structs: vec![vec![F::Enum]], out: false });
+    cases.push(Case { structs: vec![vec![F::BoxOpaque]], out: true });
+    cases.push(Case { structs: vec![vec![F::Prim("bool", 1, 1)]], out: false });
+    cases.push(Case { structs: vec![vec![F::Prim("f64", 8, 8)]], out: false });
+    cases.push(Case { structs: vec![vec![F::Prim("u8", 1, 1)], vec![F::Struct(0)]], out: false });
+    for _ in 0..3 { cases.push(Case { structs: vec![vec![F::Prim("u32", 4, 4)]], out: false }); }
     for inner in [[("u8", 1, 1), ("u32", 4, 4)], [("u16", 2, 2), ("u16", 2, 2)], [("u8", 1, 1), ("u64", 8, 8)], [("i32", 4, 4), ("u8", 1, 1)]] {
         for k in 0..4usize {
             for pos in 0..=k {
@@ -297,5 +304,13 @@ pub fn main(args: &[String]) {
         }
     }
     let _ = std::fs::remove_dir_all(&dir);
+    // executing the generated JS in Node: bytes / read-back / receive buffer / argument list (legacy, stubbed exports),
+    // and the same through a real wasm32 module built by this sandbox's rustc (spec ABI)
+    {
+        let k = if thorough { 500 } else { 60 };
+        let pick: Vec<&Case> = idx.iter().filter(|i| **i >= n_fixed).take(k).chain(idx.iter().filter(|i| **i < n_fixed).take(if thorough { n_fixed } else { 32 })).map(|i| &cases[*i]).collect();
+        crate::jsexec::run(&pick, a.seed, false, &mut rep);
+        crate::jsexec::run(&pick, a.seed, true, &mut rep);
+    }
     rep.print();
 }
